@@ -171,10 +171,16 @@ def canon(t, key=None):
     (or a map's keys) are written is not part of any property - the loader accepts every order - so objects are
     compared as key -> value maps (keys sorted; a repeated key stays repeated)"""
     if isinstance(t, Obj):
+        if key in (None, "NamedCal") and len(t.kv) == 1 and t.kv[0][0] == "name" and isinstance(t.kv[0][1], str):
+            # the SPELLING under which a named calendar keeps its name is not part of any property (C06: "regardless of
+            # letter case"; the loader lower-cases before parsing): compared case-insensitively
+            return Obj([("name", of_python(t.kv[0][1].lower()))])
         return Obj(sorted(((k, canon(v, k)) for k, v in t.kv), key=lambda kv: (isinstance(kv[0], str), str(kv[0]) if isinstance(kv[0], str) else kv[0])))
     if isinstance(t, list):
-        l = [canon(x) for x in t]
-        if key == "week_mask":
+        l = [canon(x, "@element") for x in t]
+        if key in ("week_mask", "holidays"):
+            # sets: a HashSet is written in arbitrary order; the ORDER in which a calendar lists its holidays (supply order,
+            # sorted, ...) is not part of any property - membership is
             l = sorted(l, key=repr)
         return l
     if isinstance(t, str):
